@@ -36,6 +36,9 @@ Definition lh5_code_tree_extent : N := 1020.
 Definition lh5_offset_tree_extent : N := 30.
 Definition lh5_tree_element_size : N := 2.
 Definition lh5_TREE_NODE_LEAF : N := 32768.
+Definition lh5_TEMP_CODE_BITS : N := 5.
+Definition lh5_MAX_OFFSET_CODES : N := 15.
+Definition lh5_temp_tree_extent : N := 62.
 Definition lh4_max_read : N := 16384.
 Definition lh4_block_size : N := 4096.
 Definition lh4_extra_size : N := 18640.
@@ -54,6 +57,9 @@ Definition lh6_code_tree_extent : N := 1020.
 Definition lh6_offset_tree_extent : N := 62.
 Definition lh6_tree_element_size : N := 2.
 Definition lh6_TREE_NODE_LEAF : N := 32768.
+Definition lh6_TEMP_CODE_BITS : N := 5.
+Definition lh6_MAX_OFFSET_CODES : N := 31.
+Definition lh6_temp_tree_extent : N := 62.
 Definition lh6_max_read : N := 65536.
 Definition lh6_block_size : N := 32768.
 Definition lh6_extra_size : N := 67856.
@@ -69,6 +75,9 @@ Definition lh7_code_tree_extent : N := 1020.
 Definition lh7_offset_tree_extent : N := 62.
 Definition lh7_tree_element_size : N := 2.
 Definition lh7_TREE_NODE_LEAF : N := 32768.
+Definition lh7_TEMP_CODE_BITS : N := 5.
+Definition lh7_MAX_OFFSET_CODES : N := 31.
+Definition lh7_temp_tree_extent : N := 62.
 Definition lh7_max_read : N := 131072.
 Definition lh7_block_size : N := 65536.
 Definition lh7_extra_size : N := 133392.
@@ -84,6 +93,9 @@ Definition lhx_code_tree_extent : N := 1020.
 Definition lhx_offset_tree_extent : N := 62.
 Definition lhx_tree_element_size : N := 2.
 Definition lhx_TREE_NODE_LEAF : N := 32768.
+Definition lhx_TEMP_CODE_BITS : N := 5.
+Definition lhx_MAX_OFFSET_CODES : N := 31.
+Definition lhx_temp_tree_extent : N := 62.
 Definition lhx_max_read : N := 1048576.
 Definition lhx_block_size : N := 524288.
 Definition lhx_extra_size : N := 1050896.
@@ -99,6 +111,9 @@ Definition lk7_code_tree_extent : N := 578.
 Definition lk7_offset_tree_extent : N := 126.
 Definition lk7_tree_element_size : N := 2.
 Definition lk7_TREE_NODE_LEAF : N := 32768.
+Definition lk7_TEMP_CODE_BITS : N := 5.
+Definition lk7_MAX_OFFSET_CODES : N := 63.
+Definition lk7_temp_tree_extent : N := 62.
 Definition lk7_max_read : N := 65536.
 Definition lk7_block_size : N := 32768.
 Definition lk7_extra_size : N := 67104.
